@@ -77,17 +77,16 @@ func GetAuditLogs(path string) (io.Reader, error) {
 
 // GetJournalctlLogs return a reader with the logs entries from Systemd
 func GetJournalctlLogs(path string, since string, useFile bool) (io.Reader, error) {
-	var logs []systemdLog
 	var stdout bytes.Buffer
 	var stderr bytes.Buffer
-	var scanner *bufio.Scanner
+	var input io.Reader
 
 	if useFile {
 		file, err := os.Open(filepath.Clean(path))
 		if err != nil {
 			return nil, err
 		}
-		scanner = bufio.NewScanner(file)
+		input = file
 	} else {
 		// journalctl -b -o json -g apparmor -t kernel -t audit -t dbus-daemon --output-fields=MESSAGE > systemd.log
 		args := []string{
@@ -106,31 +105,26 @@ func GetJournalctlLogs(path string, since string, useFile bool) (io.Reader, erro
 		if err := cmd.Run(); err != nil && stderr.Len() != 0 {
 			return nil, fmt.Errorf("journalctl: %s", stderr.String())
 		}
-		scanner = bufio.NewScanner(&stdout)
+		input = &stdout
 	}
 
-	var jctlRaw []string
-	for scanner.Scan() {
-		line := scanner.Text()
-		if strings.Contains(line, "apparmor") {
-			jctlRaw = append(jctlRaw, line)
-		}
-	}
-
-	jctlStr := "[" + strings.Join(jctlRaw, ",\n") + "]"
-	if err := json.Unmarshal([]byte(jctlStr), &logs); err != nil {
-		return nil, err
-	}
-
+	// Each line is one JSON record: decode them one by one, so that a line that is not
+	// valid JSON (truncated, foreign) is skipped instead of hiding every other record
 	var res strings.Builder
-	for _, log := range logs {
+	readLines(input, func(line string) {
+		if !strings.Contains(line, "apparmor") {
+			return
+		}
+		var log systemdLog
+		if err := json.Unmarshal([]byte(line), &log); err != nil {
+			return
+		}
 		res.WriteString(log.Message)
 		res.WriteString("\n")
-	}
+	})
 	return strings.NewReader(res.String()), nil
 }
 
-// SelectLogFile return the path of the available log file to parse (audit, syslog, .1, .2)
 func SelectLogFile(path string) string {
 	info, err := os.Stat(filepath.Clean(path))
 	if err == nil && !info.IsDir() {
